@@ -205,6 +205,8 @@ class CallMixin:  # pylint:disable=too-many-public-methods
             typ = args[0] if args else kwargs.get("type") or kwargs.get("type_")
             value = args[1] if len(args) > 1 else kwargs.get("value")
             return Obj("lark.Token", {"type": typ, "value": value})
+        if name == "builtins.object":
+            return Obj("builtins.object", {})
         if name == "contextvars.ContextVar":
             cv = Obj(name, {"name": args[0] if args else None, "value": kwargs.get("default", KeyError)})
             self.ctxvars.append(cv)
@@ -448,19 +450,34 @@ class CallMixin:  # pylint:disable=too-many-public-methods
                     acc = strt_concat(acc, self.to_str(it, node, frame) if not isinstance(it, (str, StrT)) else it)
                 return acc
             if a == "format":
-                if all(isinstance(x, (str, int, float, bool)) or x is None for x in [*args, *kwargs.values()]):
-                    try:
-                        return r.format(*args, **kwargs)
-                    except (IndexError, KeyError, ValueError) as err:
-                        self.raise_(type(err).__name__, str(err))
-                conv = [self.to_str(x, node, frame) for x in args]
-                kconv = {k: self.to_str(v, node, frame) for k, v in kwargs.items()}
-                if all(isinstance(x, str) for x in [*conv, *kconv.values()]) and "!r" not in r and ":" not in r:
-                    try:
-                        return r.format(*conv, **kconv)
-                    except (IndexError, KeyError, ValueError) as err:
-                        self.raise_(type(err).__name__, str(err))
-                return StrT((r, Opaque("format-args")))
+                import string as _string
+
+                acc: Any = ""
+                auto = 0
+                try:
+                    for literal, field, spec, conv in _string.Formatter().parse(r):
+                        acc = strt_concat(acc, literal)
+                        if field is None:
+                            continue
+                        if spec:
+                            raise Unsupported(f"format spec {spec!r} in str.format")
+                        if field == "":
+                            val = args[auto]
+                            auto += 1
+                        elif field.isdigit():
+                            val = args[int(field)]
+                        elif field.isidentifier():
+                            val = kwargs[field]
+                        else:
+                            raise Unsupported(f"format field {field!r}")
+                        acc = strt_concat(acc, self.to_str(val, node, frame, repr_mode=(conv == "r")))
+                except IndexError:
+                    self.raise_("IndexError", "Replacement index out of range for positional args tuple")
+                except KeyError as err:
+                    raise PyRaise(self.exc("builtins.KeyError", str(err)))
+                except ValueError as err:
+                    self.raise_("ValueError", str(err))
+                return acc
             if a in ("startswith", "endswith", "replace") and any(isinstance(x, (StrT, Opaque)) for x in args):
                 return Opaque(f"str.{a}")
             self.unsupported(node, frame, f"str.{a}{tuple(args)!r}")
